@@ -132,7 +132,7 @@ class C17(Check):
         "path masked in logs); (ii-c) index buffer {1,2,3,5,7,250000} through cache files and pipeline output; (iii) all permutations of 4 "
         "consecutive in-process invocations (3 pretext-to-asm inputs + 1 asm-format) vs fresh-process runs; (iv) FASTA vs AGP vs TPF input: same "
         "output files. non-trivial = configuration that differs from the reference configuration in at least one dimension"
-        " Cache states cold / warm / stale / half-updated; cwd in {/, scratch, output directory}; digest scope with two or three tags per piece; an input scaffold that ends in Ns in the three-format comparison."
+        " Cache states cold / warm / stale / half-updated / stale with the same mtime as the FASTA; cwd in {/, scratch, output directory}; digest scope with two or three tags per piece; an input scaffold that ends in Ns in the three-format comparison."
     )
     assumptions = [
         "hash-order dependence other than tag sets is observed only through the enumerated seeds",
@@ -324,8 +324,10 @@ class C17(Check):
             n = 0
             for seed in seeds:
                 for cwd in ("/", "scratch", "outdir"):
-                    for cache in ("cold", "warm", "stale", "half-updated"):
+                    for cache in ("cold", "warm", "stale", "half-updated", "stale-tie"):
                         if cwd == "outdir" and cache not in ("cold", "warm"):
+                            continue
+                        if cache == "stale-tie" and cwd != "scratch":
                             continue
                         n += 1
                         base = d / f"r{n}"
@@ -340,7 +342,7 @@ class C17(Check):
                             argv[-1] = "x.fa"  # the documented usage: a relative --output inside the curation directory
                         if cache != "cold":
                             fa = base / "in" / "asm.fa"
-                            if cache in ("stale", "half-updated"):
+                            if cache in ("stale", "half-updated", "stale-tie"):
                                 # the cache is built from an older version of the FASTA (other gap layout) ...
                                 cli.write_fasta(fa, ALT_INPUTS[ii], width=11)
                                 os.utime(fa, (1_000_000, 1_000_000))
@@ -349,11 +351,15 @@ class C17(Check):
                             shutil.rmtree(base / "warmup", ignore_errors=True)
                             if not (base / "in" / "asm.fa.fai").exists():
                                 ctx.violation("cache-not-written", ["gencli", gi, seed, cwd, cache], "no .fai after the warm-up run")
-                            if cache in ("stale", "half-updated"):
+                            if cache in ("stale", "half-updated", "stale-tie"):
                                 # ... then the FASTA is replaced, with a later mtime than both cache files
                                 cli.write_fasta(fa, GEN_INPUTS[ii], width=11)
                                 later = os.stat(str(fa) + ".agp").st_mtime + 100
                                 os.utime(fa, (later, later))
+                                if cache == "stale-tie":
+                                    # ... or within the same clock tick as the old cache was written (coarse timestamps)
+                                    os.utime(str(fa) + ".fai", (later, later))
+                                    os.utime(str(fa) + ".agp", (later, later))
                                 if cache == "half-updated":
                                     # an indexing run that died between the two cache files: fresh .fai, old .agp
                                     from tola.fasta.index import index_fasta_file
@@ -376,7 +382,7 @@ class C17(Check):
                         else:
                             ctx.nontrivial += 1
                             diff = sorted(k for k in set(files) | set(ref[2]) if files.get(k) != ref[2].get(k))
-                            if cache in ("stale", "half-updated"):
+                            if cache in ("stale", "half-updated", "stale-tie"):
                                 # a stale cache is announced in the log (warnings about the old files): the log is not compared there
                                 diff = [k for k in diff if not k.endswith(".log")]
                             if codes != ref[1] or diff:
